@@ -6,6 +6,7 @@ from cv.rules import events_of
 from props import errscope
 
 TITLE = "Validate is accurate: silent on healthy archives, loud on damage"
+TECHNIQUE = 'static analysis: error-discipline classification under validate (loudness), must-consult rule for the hunk count, coverage table of reporting sites'
 EXPLANATION = (
     "The healthy side (no false positives) is value-level and not decided. Decided are loudness obligations on "
     "everything reachable from Archive::validate: (1) every result that damage to a stored file can turn into an "
